@@ -48,10 +48,12 @@ type c06Case struct {
 	Key    string       `json:"key"`
 	Frags  [][][]c06Nal `json:"frags"` // fragment -> sample -> NAL units
 	Extras int          `json:"extras"`
+	Dev    string       `json:"dev,omitempty"` // C15 deviation name(s, joined by " + "): parameter sets and slice header of every VCL unit are built with them
+	Lead   int          `json:"lead,omitempty"` // first byte of the slice data after each slice header (0: pseudo-random fill)
 }
 
 // extra boxes (bit i of Extras)
-var c06ExtraNames = []string{"traf:uuid tfxd", "traf:uuid tfrf", "traf:unknown box", "traf:free", "moof:vendor uuid", "moof:unknown box", "moof:free", "traf:vendor uuid", "traf:extras after trun", "moof:extras before mfhd"}
+var c06ExtraNames = []string{"traf:uuid tfxd", "traf:uuid tfrf", "traf:unknown box", "traf:free", "moof:vendor uuid", "moof:unknown box", "moof:free", "traf:vendor uuid", "traf:extras after trun", "moof:extras before mfhd", "traf:sgpd+sbgp roll", "traf:sbgp rap"}
 
 func c06ExtraBoxes(mask int) (moofX, trafX [][]byte) {
 	uuid := func(id string, body []byte) []byte {
@@ -81,6 +83,13 @@ func c06ExtraBoxes(mask int) (moofX, trafX [][]byte) {
 	}
 	if mask&128 != 0 {
 		trafX = append(trafX, uuid("ffeeddccbbaa99887766554433221100", []byte{1, 2, 3}))
+	}
+	if mask&1024 != 0 { // sample groups that are not protection signalling (audio pre-roll)
+		trafX = append(trafX, tableref.Box("sgpd", []byte{1, 0, 0, 0}, []byte("roll"), be32(2), be32(1), []byte{0xff, 0xff}))
+		trafX = append(trafX, tableref.Box("sbgp", []byte{0, 0, 0, 0}, []byte("roll"), be32(1), be32(1), be32(1)))
+	}
+	if mask&2048 != 0 { // mapping to a group description in the init segment's stbl (index 1), one sample
+		trafX = append(trafX, tableref.Box("sbgp", []byte{0, 0, 0, 0}, []byte("rap "), be32(1), be32(1), be32(0)))
 	}
 	return
 }
@@ -182,6 +191,73 @@ func c06Setup() {
 	})
 }
 
+// c06DevMat is the codec material of one C15 deviation (parameter sets + slice template).
+type c06DevMat struct {
+	ok            bool
+	vps, sps, pps []byte
+	slice         func(n int) (nalu []byte, hdr int, ok bool)
+}
+
+var c06DevCache sync.Map
+
+func c06Dev(codec, name string) *c06DevMat {
+	key := codec + "|" + name
+	if v, ok := c06DevCache.Load(key); ok {
+		return v.(*c06DevMat)
+	}
+	dm := &c06DevMat{}
+	switch codec {
+	case "avc":
+		var ds []dev
+		for _, nm := range strings.Split(name, " + ") {
+			for _, d := range avcDeviations() {
+				if d.Name == nm {
+					ds = append(ds, d)
+				}
+			}
+		}
+		if len(ds) == len(strings.Split(name, " + ")) {
+			s, p, sl := avcBuild(ds)
+			min, _ := sl.NAL(s, p, 0)
+			dm.ok, dm.sps, dm.pps = true, s.NAL(), p.NAL(s.ChromaIDC())
+			dm.slice = func(n int) ([]byte, int, bool) {
+				if n < len(min) {
+					return nil, 0, false
+				}
+				nalu, hdr := sl.NAL(s, p, n-len(min))
+				return nalu, hdr, len(nalu) == n
+			}
+		}
+	case "hevc":
+		var ds []hdev
+		for _, nm := range strings.Split(name, " + ") {
+			for _, d := range hevcDeviations() {
+				if d.Name == nm {
+					ds = append(ds, d)
+				}
+			}
+		}
+		if len(ds) == len(strings.Split(name, " + ")) {
+			s, p, sl, ok := hevcBuild(ds)
+			if !ok {
+				break
+			}
+			min, _ := sl.NAL(s, p, 0)
+			dm.ok, dm.sps, dm.pps = true, s.NAL(), p.NAL()
+			dm.vps, _ = hexDecode(c19HVPS)
+			dm.slice = func(n int) ([]byte, int, bool) {
+				if n < len(min) {
+					return nil, 0, false
+				}
+				nalu, hdr := sl.NAL(s, p, n-len(min))
+				return nalu, hdr, len(nalu) == n
+			}
+		}
+	}
+	c06DevCache.Store(key, dm)
+	return dm
+}
+
 // ---------- clear file
 
 type c06NalInfo struct {
@@ -233,15 +309,33 @@ func c06Build(cs *c06Case) (*c06File, bool) {
 	m := &c06Mat
 	f := &c06File{}
 	init := mp4.CreateEmptyInit()
+	avcSPS, avcPPS, hevcVPS, hevcSPS, hevcPPS := m.avcSPS, m.avcPPS, m.hevcVPS, m.hevcSPS, m.hevPPS
+	avcSlice := func(v int) func(int) ([]byte, int, bool) { return m.avcSlice[v%3] }
+	hevcSlice := func(v int) func(int) ([]byte, int, bool) { return m.hevcSlice[v%3] }
+	if cs.Dev != "" {
+		dm := c06Dev(cs.Codec, cs.Dev)
+		if !dm.ok {
+			return nil, false
+		}
+		avcSPS, avcPPS, hevcVPS, hevcSPS, hevcPPS = dm.sps, dm.pps, dm.vps, dm.sps, dm.pps
+		avcSlice = func(int) func(int) ([]byte, int, bool) { return dm.slice }
+		hevcSlice = avcSlice
+	}
 	switch cs.Codec {
 	case "avc":
 		init.AddEmptyTrack(90000, "video", "und")
-		if err := init.Moov.Trak.SetAVCDescriptor("avc1", [][]byte{m.avcSPS}, [][]byte{m.avcPPS}, true); err != nil {
+		if err := init.Moov.Trak.SetAVCDescriptor("avc1", [][]byte{avcSPS}, [][]byte{avcPPS}, true); err != nil {
+			if cs.Dev != "" {
+				return nil, false // parameter sets the descriptor builder does not accept: not expressible
+			}
 			vf.Harness("c06: SetAVCDescriptor: %v", err)
 		}
 	case "hevc":
 		init.AddEmptyTrack(90000, "video", "und")
-		if err := init.Moov.Trak.SetHEVCDescriptor("hvc1", [][]byte{m.hevcVPS}, [][]byte{m.hevcSPS}, [][]byte{m.hevPPS}, nil, true); err != nil {
+		if err := init.Moov.Trak.SetHEVCDescriptor("hvc1", [][]byte{hevcVPS}, [][]byte{hevcSPS}, [][]byte{hevcPPS}, nil, true); err != nil {
+			if cs.Dev != "" {
+				return nil, false
+			}
 			vf.Harness("c06: SetHEVCDescriptor: %v", err)
 		}
 	case "aac":
@@ -275,7 +369,7 @@ func c06Build(cs *c06Case) (*c06File, bool) {
 					data = append(data, unit...)
 					continue
 				case n.VCL && cs.Codec == "avc":
-					u, h, ok := m.avcSlice[n.Var%3](n.Size)
+					u, h, ok := avcSlice(n.Var)(n.Size)
 					if !ok {
 						if cs.Scheme == "cbcs" || n.Size < 1 {
 							return nil, false
@@ -285,10 +379,13 @@ func c06Build(cs *c06Case) (*c06File, bool) {
 						u[0] = 0x65
 					} else {
 						c06Fill(u[h:], serial)
+						if cs.Lead != 0 && h < len(u)-1 {
+							u[h] = byte(cs.Lead)
+						}
 					}
 					unit, hdr = u, h
 				case n.VCL && cs.Codec == "hevc":
-					u, h, ok := m.hevcSlice[n.Var%3](n.Size)
+					u, h, ok := hevcSlice(n.Var)(n.Size)
 					if !ok {
 						if cs.Scheme == "cbcs" || n.Size < 1 {
 							return nil, false
@@ -298,6 +395,9 @@ func c06Build(cs *c06Case) (*c06File, bool) {
 						u[0] = 0x02
 					} else {
 						c06Fill(u[h:], serial)
+						if cs.Lead != 0 && h < len(u)-1 {
+							u[h] = byte(cs.Lead)
+						}
 					}
 					unit, hdr = u, h
 				default:
@@ -418,7 +518,7 @@ func c06Decrypt(enc []byte, keyHex string) ([]byte, error) {
 
 // ---------- oracles
 
-var c06ProtectionBoxes = map[string]bool{"saiz": true, "saio": true, "senc": true, "pssh": true, "sinf": true, "frma": true, "schm": true, "schi": true, "tenc": true, "sbgp": true, "sgpd": true}
+var c06ProtectionBoxes = map[string]bool{"saiz": true, "saio": true, "senc": true, "pssh": true, "sinf": true, "frma": true, "schm": true, "schi": true, "tenc": true}
 
 type c06Leaf struct {
 	Path  string
@@ -436,6 +536,11 @@ func c06Leaves(buf []byte) ([]c06Leaf, error) {
 	boxwalk.Flatten(top, "", func(path string, b *boxwalk.Box) {
 		if c06ProtectionBoxes[b.Type] {
 			return
+		}
+		if b.Type == "sbgp" || b.Type == "sgpd" { // sample groups are protection signalling only for grouping type seig
+			if x := b.Bytes(); len(x) >= 16 && string(x[12:16]) == "seig" {
+				return
+			}
 		}
 		for _, seg := range strings.Split(path, "/") {
 			if seg == "sinf" || seg == "schi" {
@@ -617,7 +722,14 @@ func c06ParseProtection(buf []byte) (*c06Tenc, error) {
 
 // c06CheckEncrypted: the C07 clauses on the encrypted file.
 func c06CheckEncrypted(c *c06Ctx, cs *c06Case, f *c06File, clear, enc []byte, det func(string) interface{}) {
-	fail := func(sig, clause, extra string) { c.Fail(sig, clause, det(extra)) }
+	fail := func(sig, clause, extra string) {
+		if cs.Codec == "avc" && cs.Scheme == "cbcs" && strings.HasPrefix(cs.Dev, "pps.slice_groups(type") && strings.Contains("345", cs.Dev[len("pps.slice_groups(type"):][:1]) &&
+			(sig == "slice header protected" || sig == "cbcs protected range does not start at the slice header end") {
+			// consequence of the listed C15 finding (slice_group_change_cycle read with the wrong bit length)
+			sig = "cbcs protection boundary with slice group map types 3-5 (slice_group_change_cycle length)"
+		}
+		c.Fail(sig, clause, det(extra))
+	}
 	key, _ := hexDecode(cs.Key)
 	iv, _ := hexDecode(cs.IV)
 	iv16 := make([]byte, 16)
@@ -1188,6 +1300,53 @@ func c06Cases(thorough bool) []*c06Case {
 			}
 		}
 	}
+	// every C15 syntax deviation (parameter sets and slice header built with it): the protected range starts at the end of
+	// THAT slice header; sizes around the 16-byte block and 1:9 pattern edges after the header
+	devSizes := []int{40, 64, 200}
+	if thorough {
+		devSizes = []int{24, 40, 41, 64, 177, 200, 337}
+	}
+	// the first byte of the slice data takes every leading-zero count 0..5: a header parser that reads one code too many
+	// (or too few) lands on a code of 1..11 bits and so crosses a byte boundary for at least one of them
+	leads := []int{0x80, 0x40, 0x20, 0x10, 0x08, 0x04}
+	var avcNames, hevcNames, avcSl, hevcSl []string
+	for _, d := range avcDeviations() {
+		avcNames = append(avcNames, d.Name)
+		if strings.HasPrefix(d.Name, "slice.") {
+			avcSl = append(avcSl, d.Name)
+		}
+	}
+	for _, d := range hevcDeviations() {
+		hevcNames = append(hevcNames, d.Name)
+		if strings.HasPrefix(d.Name, "slice.") {
+			hevcSl = append(hevcSl, d.Name)
+		}
+	}
+	// pairs of slice-level deviations
+	pairs := func(l []string) []string {
+		var out []string
+		for i := range l {
+			for j := i + 1; j < len(l); j++ {
+				out = append(out, l[i]+" + "+l[j])
+			}
+		}
+		return out
+	}
+	for _, scheme := range []string{"cbcs", "cenc"} {
+		for ci, names := range [][]string{avcNames, hevcNames, pairs(avcSl), pairs(hevcSl)} {
+			codec := []string{"avc", "hevc", "avc", "hevc"}[ci]
+			for _, nm := range names {
+				for _, n := range devSizes {
+					cases = append(cases, &c06Case{Codec: codec, Scheme: scheme, IV: c06IVs[1], Key: c06Keys[0], Dev: nm, Frags: [][][]c06Nal{{{{VCL: false, Size: 9}, {VCL: true, Size: n}}, {{VCL: true, Size: n + 16}}}}})
+				}
+				if scheme == "cbcs" && ci < 2 {
+					for _, ld := range leads {
+						cases = append(cases, &c06Case{Codec: codec, Scheme: scheme, IV: c06IVs[1], Key: c06Keys[0], Dev: nm, Lead: ld, Frags: [][][]c06Nal{{{{VCL: true, Size: 200}}}}})
+					}
+				}
+			}
+		}
+	}
 	return cases
 }
 
@@ -1198,7 +1357,7 @@ func runC0607(c *vf.Ctx, prop string) {
 	}
 	c06Setup()
 	cases := c06Cases(thorough)
-	c.Rule = "product enumeration of clear fragmented files: codec {AVC, HEVC, AAC} x scheme {cenc, cbcs} x IV {0, ..ff, ff..ff (wrap), 8-byte, 8-byte ff..ff} x 2 keys x sample layouts (1 NAL unit: every size 1..420 (thorough: 1..1200 and around 4096 and 65536) x {non-VCL, 3 slice variants with real slice headers}; 2 and 3 NAL units: all class patterns x size subsets; 39..43 protected NAL units in one sample; clear runs around 65535 and 131070 bytes) x {1 sample, chained 2+1 samples in 2 fragments} x audio frame sizes x every subset of <= 3 (thorough: 4) of 10 extra-box choices (uuid tfxd/tfrf/vendor, unknown, free; in moof and traf; before/after trun and mfhd). Each file is encrypted through DecodeFile/InitProtect/EncryptFragment/Encode and (C06) decrypted through DecodeFile/DecryptInit/DecryptSegment/Encode. C07 reads the encrypted bytes with ref/boxwalk: sub-sample partition, clear/protected placement against the generator's NAL map and slice header sizes, saiz/saio against the senc entries, IV progression, and ref/cencref (own CTR and CBC-pattern modes over the AES block primitive, NIST-vector self-test) on every sample; everything else in the fragment compared box by box with the clear input. C06 reads the decrypted bytes with ref/fragref: every sample byte-for-byte, size/duration/flags/cto/decode time, sample entry type, and the list of all non-protection boxes (trun data_offset checked through the sample bytes)."
+	c.Rule = "product enumeration of clear fragmented files: codec {AVC, HEVC, AAC} x scheme {cenc, cbcs} x IV {0, ..ff, ff..ff (wrap), 8-byte, 8-byte ff..ff} x 2 keys x sample layouts (1 NAL unit: every size 1..420 (thorough: 1..1200 and around 4096 and 65536) x {non-VCL, 3 slice variants with real slice headers}; every single C15 syntax deviation (AVC and HEVC: parameter sets and slice header built with it) and every pair of slice-level deviations x 3 (thorough: 7) sizes, and for cbcs every single deviation x the first slice-data byte with 0..5 leading zero bits; 2 and 3 NAL units: all class patterns x size subsets; 39..43 protected NAL units in one sample; clear runs around 65535 and 131070 bytes) x {1 sample, chained 2+1 samples in 2 fragments} x audio frame sizes x every subset of <= 3 (thorough: 4) of 12 extra-box choices (uuid tfxd/tfrf/vendor, unknown, free, sgpd+sbgp of grouping type roll, sbgp rap; in moof and traf; before/after trun and mfhd). Each file is encrypted through DecodeFile/InitProtect/EncryptFragment/Encode and (C06) decrypted through DecodeFile/DecryptInit/DecryptSegment/Encode. C07 reads the encrypted bytes with ref/boxwalk: sub-sample partition, clear/protected placement against the generator's NAL map and slice header sizes, saiz/saio against the senc entries, IV progression, and ref/cencref (own CTR and CBC-pattern modes over the AES block primitive, NIST-vector self-test) on every sample; everything else in the fragment compared box by box with the clear input. C06 reads the decrypted bytes with ref/fragref: every sample byte-for-byte, size/duration/flags/cto/decode time, sample entry type, and the list of all non-protection boxes (trun data_offset checked through the sample bytes)."
 	c.Bound = fmt.Sprintf("%d cases (%s)", len(cases), c.Tier)
 	// the command-line tools' own encryptFile / decryptFile (overlay drivers): every 4th case (quick), all (thorough)
 	nw := 16
